@@ -214,7 +214,7 @@ def main(tier, seed):
     mags = gen_mags(rng, 300 if tier == "quick" else 2500)
     violations = []
     configs = [("g++", "c++14"), ("clang++-14", ["c++14", "c++17", "c++20"][seed % 3])]
-    nchunks = 16
+    nchunks = max(16, -(-len(mags) // 18))      # bounded translation units: ~18 cases per TU in every tier
     stats = {"magnitudes": len(mags), "configs": [], "ok_cells": 0, "nofit_cells": 0, "nonint_cells": 0, "neg_probes": 0,
              "float_cells_checked": 0, "irrational": 0, "integers": 0}
     results = {}
